@@ -13,7 +13,9 @@ VERIF = os.path.dirname(os.path.dirname(os.path.abspath(__file__)))
 SPEC = os.path.join(VERIF, "spec")
 HARNESS = os.path.join(VERIF, "harness")
 EVID = os.path.join(VERIF, "evidence")
-REPO = "/repo"
+# The registered checks always verify /repo. VERIF_REPO points the harness at another checkout ONLY for the framework's own
+# seeded-change runs (bin/seedmatrix --isolated), so that they do not disturb /repo.
+REPO = os.environ.get("VERIF_REPO", "/repo")
 TLA_CP = "/opt/veriftools/tla/tla2tools.jar:/opt/veriftools/tla/CommunityModules-deps.jar"
 NCPU = os.cpu_count() or 4
 
@@ -180,7 +182,7 @@ class Ctx:
         e["VERIF_SCRATCH"] = self.scratch
         if env:
             e.update({k: str(v) for k, v in env.items()})
-        cmd = ["go1.26", "test", "-tags", "verif", "-count=1", "-vet=off", "-timeout", "%ds" % timeout, "-run", run]
+        cmd = ["go1.26", "test"] + modfile_args(self.scratch) + ["-tags", "verif", "-count=1", "-vet=off", "-timeout", "%ds" % timeout, "-run", run]
         if race:
             cmd.append("-race")
         cmd += list(extra) + [pkg]
@@ -233,13 +235,24 @@ def parse_emitted(out, tag="CASE"):
 def sync_gosum():
     """The harness module resolves the library through replace => /repo; go.sum is the union of the repo's sums."""
     lines = set()
-    for f in ("/repo/go.sum", "/repo/publish/go.sum", "/repo/quic/go.sum", os.path.join(HARNESS, "go.sum.extra")):
+    for f in (REPO + "/go.sum", REPO + "/publish/go.sum", REPO + "/quic/go.sum", os.path.join(HARNESS, "go.sum.extra")):
         if os.path.exists(f):
             lines.update(l for l in open(f).read().splitlines() if l.strip())
     dst = os.path.join(HARNESS, "go.sum")
     new = "\n".join(sorted(lines)) + "\n"
     if not os.path.exists(dst) or open(dst).read() != new:
         open(dst, "w").write(new)
+
+
+def modfile_args(scratch):
+    """-modfile pointing the harness at VERIF_REPO (empty when verifying /repo itself)."""
+    if REPO == "/repo":
+        return []
+    mod = open(os.path.join(HARNESS, "go.mod")).read().replace("=> /repo/publish", "=> " + REPO + "/publish").replace("=> /repo", "=> " + REPO)
+    alt = os.path.join(scratch, "go.alt.mod")
+    open(alt, "w").write(mod)
+    shutil.copy(os.path.join(HARNESS, "go.sum"), os.path.join(scratch, "go.alt.sum"))
+    return ["-modfile=" + alt]
 
 
 def write_ndjson(path, objs):
